@@ -193,3 +193,34 @@ def parse(typ, data, pos=0):
     s.seek(pos)
     v = typ._read(s) if False else typ(s)
     return v, s.tell()
+
+
+def touch_mutable(obj, only=None):
+    """Change the mutable members (lists, nested structures) of an instance in place; returns how many were changed."""
+    m = import_repo()
+    n = 0
+    for f in type(obj).__fields__:
+        if only is not None and f._name not in only:
+            continue
+        v = getattr(obj, f._name, None)
+        if isinstance(v, list):
+            if v:
+                v.pop()
+            else:
+                v.append(0)
+            n += 1
+        elif isinstance(v, m.Structure) and not isinstance(v, m.Union):
+            for g in type(v).__fields__:
+                w = getattr(v, g._name, None)
+                if isinstance(w, int) and not isinstance(w, bool):
+                    setattr(v, g._name, int(w) ^ 1)
+                    n += 1
+                    break
+                if isinstance(w, list):
+                    if w:
+                        w.pop()
+                    else:
+                        w.append(0)
+                    n += 1
+                    break
+    return n
